@@ -27,7 +27,7 @@ RULE = (
 )
 ASSUMPTIONS = [
     "bound: numeric style attributes are dyadic (multiples of 0.25/0.5) so 32-bit storage is exact; border widths have <= 2 decimals as documented",
-    "bound: strokes are drawn inside the table and on tables without merged ranges; structural edits are not mixed with strokes (unspecified)",
+    "bound: strokes are drawn inside the table; on tables with merged ranges (a third of the runs) a visible-side model applies: a side is visible unless its edge lies strictly inside the cell's merged range, calls addressing a hidden side are ignored as documented; ranges are merged only before anything is drawn; structural edits are not mixed with strokes (unspecified)",
     "mirrored, not judged: a plain write() to a styled cell replaces the cell object and its style with it",
     "style objects applied after a restart are ones created after that restart (what a reloaded custom style carries is not specified)",
 ]
